@@ -209,7 +209,10 @@ func libCall(e *Exec, st *State, fr *Frame, callee *ssa.Function, args []*Value,
 		return true
 	case "reflect.ValueOf":
 		use()
-		k(st, []*Value{valOf(sig.Results().At(0).Type(), UF("rv_of", SRV, args[0].One()))})
+		rv := UF("rv_of", SRV, args[0].One())
+		// reflect.ValueOf(nil) is the zero Value; every other argument gives a valid one
+		st.Assume(Eq(rvIsValid(rv), Not(Eq(args[0].One(), VNil))))
+		k(st, []*Value{valOf(sig.Results().At(0).Type(), rv)})
 		return true
 	}
 	if strings.HasPrefix(name, "(reflect.Value).") || strings.HasPrefix(name, "reflect.") {
@@ -375,6 +378,14 @@ func (e *Exec) reflectCall(st *State, fr *Frame, callee *ssa.Function, name stri
 		e.Assert(site+"/lib-pre:reflect.Value.Slice[upper]", "safe", fr.fn.String(), st, BVCmp("bvsle", j, ln), "v.Slice(i, j): j <= v.Len()")
 		e.Assert(site+"/lib-pre:reflect.Value.Slice[order]", "safe", fr.fn.String(), st, BVCmp("bvsle", i, j), "v.Slice(i, j): i <= j")
 	}
+	if name == "(reflect.Value).Call" && len(args) == 2 && len(args[1].L) == 3 {
+		// library precondition: reflect.Value.Call panics on a zero Value argument ("Call using zero Value argument")
+		ptr, ln := args[1].L[0], args[1].L[1]
+		kq := BoundVar(fmt.Sprintf("cq%d", freshSeqNext()), SBV(64))
+		elt := st.Sel(st.Mem(SRV), LocIndex(ptr, kq))
+		goal := Forall([]*Term{kq}, Implies(And(BVCmp("bvsge", kq, BV64(0)), BVCmp("bvslt", kq, ln)), rvIsValid(elt)))
+		e.Assert(shortName(fr.fn)+e.pathLabelOf(st, fr)+"/lib-pre:reflect.Value.Call[args-valid]", "safe", fr.fn.String(), st, goal, "no argument handed to reflect.Value.Call is the zero Value")
+	}
 	neverPanics := false
 	switch name {
 	case "(reflect.Value).Kind", "(reflect.Value).IsValid", "(reflect.Value).CanInterface":
@@ -426,6 +437,13 @@ func (e *Exec) reflectCall(st *State, fr *Frame, callee *ssa.Function, name stri
 			st.Assume(And(BVCmp("bvsge", L[1], BV64(0)), BVCmp("bvsle", L[1], L[2])))
 		}
 		res = append(res, v)
+	}
+	if name == "(reflect.Value).Elem" && len(as) >= 1 && len(res) == 1 && len(res[0].L) == 1 {
+		// the Elem of a Value made from a non-nil pointer is the pointed-to variable: a valid Value
+		if as[0].Op == "rv_of" && len(as[0].Args) == 1 {
+			p := as[0].Args[0]
+			st.Assume(Implies(And(Is("VPtr", p), Not(Eq(VSel("ptr_of", p), NilLoc))), rvIsValid(res[0].L[0])))
+		}
 	}
 	k(st, res)
 	return true
